@@ -3,7 +3,12 @@
    stay Coq datatypes.  No Extract Constant. *)
 From Coq Require Extraction.
 From Coq Require ExtrOcamlBasic.
-From PasfmtVerif Require Import Model.Token Model.Reconstruct Model.Rewriters Model.Toggle Model.Canon Model.DirectiveTree.
+From PasfmtVerif Require Import Model.Token Model.Reconstruct Model.Rewriters Model.Toggle Model.Canon Model.DirectiveTree Model.Cursor Model.MLString Model.MLValue Model.Lines.
+(* join lives in the proofs file of the multi-line string unit; re-stated here for the oracle *)
+Module MLStringJoin.
+  Fixpoint join (nl : bytes) (ls : list bytes) : bytes :=
+    match ls with [] => [] | [l] => l | l :: r => l ++ nl ++ join nl r end.
+End MLStringJoin.
 Extraction Language OCaml.
 Extraction "model.ml"
   all_RawTokenType all_TokenType all_LogicalLineType tt_of_raw
@@ -12,4 +17,7 @@ Extraction "model.ml"
   rs_new rs_of_config reconstruct
   lowercase_keywords comment_formatter eof_newline_once r01_b tok_ok_b
   parse_toggle toggle_marks ignore_marks void_lines canon_fmt canon_first_bad eof_canon ends_nonblank
-  all_passes.
+  all_passes
+  track_cursor_u32 process_cursor_ok
+  rewrite_ml_token lines_custom ml_value eligible closing_indent MLStringJoin.join nrepeat
+  lines_cover parents_ok eof_line_ok.
